@@ -33,7 +33,28 @@ enum ReadOp {
     Subscribe,
     ReopenLog,
     UnknownThread,
+    /// an id no thread has, shaped like a path (ids are joined into cache file names)
+    HostileId { id: u8, which: u8 },
 }
+
+/// Unknown thread ids with path-like shapes. `<id>.jsonl` under continuity_streams/ is where the
+/// full sidecar of a thread lives, so "../events" names the truth log itself.
+const HOSTILE_IDS: &[&str] = &[
+    "../events",
+    "../events.jsonl",
+    "..",
+    ".",
+    "",
+    "events",
+    "../continuities/index",
+    "../../data/events",
+    "a/b",
+    "../snapshots/x",
+    "./../events",
+    "..//events",
+    "%2e%2e%2fevents",
+    "日本/../../events",
+];
 
 #[derive(Debug, Clone, Serialize, Deserialize)]
 enum Step {
@@ -82,6 +103,7 @@ fn read_strategy() -> BoxedStrategy<ReadOp> {
         1 => Just(ReadOp::Subscribe),
         1 => Just(ReadOp::ReopenLog),
         1 => Just(ReadOp::UnknownThread),
+        2 => (0u8..(HOSTILE_IDS.len() as u8), 0u8..8).prop_map(|(id, which)| ReadOp::HostileId { id, which }),
     ]
     .boxed()
 }
@@ -326,6 +348,34 @@ fn do_read(it: &mut Interp, r: &ReadOp) -> &'static str {
             let _ = s.context_selection_status_v1(UNKNOWN_THREAD, ContextSelectionStatusV1Request { limit: None });
             "unknown_thread_reads"
         }
+        ReadOp::HostileId { id, which } => {
+            let s = &it.live.store;
+            let tid = HOSTILE_IDS[*id as usize % HOSTILE_IDS.len()];
+            let w = *which;
+            if w == 0 || w == 7 {
+                let _ = s.replay_events(tid);
+            }
+            if w == 1 || w == 7 {
+                let _ = s.get(tid);
+            }
+            if w == 2 || w == 7 {
+                let _ = s.compaction_cut_points_v1(tid, CompactionCutPointsV1Request { stride_messages: Some(2), limit: Some(3) });
+            }
+            if w == 3 || w == 7 {
+                let _ = s.compaction_status_v1(tid, CompactionStatusV1Request { stride_messages: Some(2) });
+            }
+            if w == 4 || w == 7 {
+                let _ = s.provider_cursor_status_v1(tid, ProviderCursorStatusV1Request {});
+            }
+            if w == 5 || w == 7 {
+                let _ = s.context_selection_status_v1(tid, ContextSelectionStatusV1Request { limit: None });
+            }
+            if w == 6 {
+                // a mutation that must be refused (no such thread): nothing may be written
+                let _ = s.append_message(tid, "user".into(), "test".into(), "to nobody".into());
+            }
+            "hostile_unknown_id"
+        }
     }
 }
 
@@ -350,6 +400,8 @@ enum HttpRead {
     SessionEventsUnknown,
     TaskReadsUnknown,
     Malformed { t: u16, which: u8 },
+    /// path-shaped unknown thread id, percent-encoded into the URL
+    HostileId { id: u8, which: u8 },
 }
 
 #[derive(Debug, Clone, Serialize, Deserialize)]
@@ -386,6 +438,7 @@ fn http_case_strategy() -> BoxedStrategy<HttpCase> {
         1 => Just(HttpRead::SessionEventsUnknown),
         1 => Just(HttpRead::TaskReadsUnknown),
         2 => (t(), 0u8..4).prop_map(|(t, which)| HttpRead::Malformed { t, which }),
+        3 => (0u8..(HOSTILE_IDS.len() as u8), 0u8..7).prop_map(|(id, which)| HttpRead::HostileId { id, which }),
     ];
     (
         ops_strategy(OpWeights { restart: 0, ..OpWeights::default() }, 30),
@@ -494,6 +547,43 @@ fn run_http(case: &HttpCase) -> CaseReport {
                     };
                     rv::http::call_raw(&router, Method::POST, &path, Some("application/json"), body.to_vec()).await;
                     "http_malformed_mutation"
+                }
+                HttpRead::HostileId { id, which } => {
+                    let raw = HOSTILE_IDS[*id as usize % HOSTILE_IDS.len()];
+                    // every byte outside the unreserved set is percent-encoded, so the router sees
+                    // ONE path segment that decodes to the raw id
+                    let enc: String = raw
+                        .bytes()
+                        .map(|b| if b.is_ascii_alphanumeric() || b == b'-' || b == b'_' { (b as char).to_string() } else { format!("%{b:02X}") })
+                        .collect();
+                    if enc.is_empty() {
+                        rv::http::call(&router, Method::GET, "/threads//events", None).await;
+                    } else {
+                        match which {
+                            0 => {
+                                rv::http::call(&router, Method::GET, &format!("/threads/{enc}"), None).await;
+                            }
+                            1 => {
+                                rv::http::sse_collect(&router, &format!("/threads/{enc}/events"), Duration::from_millis(20), |p| p.len() >= 50).await;
+                            }
+                            2 => {
+                                rv::http::call(&router, Method::POST, &format!("/threads/{enc}/compaction-cut-points"), Some(json!({"stride_messages": 2}))).await;
+                            }
+                            3 => {
+                                rv::http::call(&router, Method::POST, &format!("/threads/{enc}/compaction-status"), Some(json!({"stride_messages": 2}))).await;
+                            }
+                            4 => {
+                                rv::http::call(&router, Method::POST, &format!("/threads/{enc}/provider-cursor-status"), Some(json!({}))).await;
+                            }
+                            5 => {
+                                rv::http::call(&router, Method::POST, &format!("/threads/{enc}/context-selection-status"), Some(json!({}))).await;
+                            }
+                            _ => {
+                                rv::http::call(&router, Method::POST, &format!("/threads/{enc}/messages"), Some(json!({"content": "to nobody", "actor_id": "user", "origin": "test"}))).await;
+                            }
+                        }
+                    }
+                    "http_hostile_unknown_id"
                 }
             };
             let after = std::fs::read(&log_path).unwrap_or_default();
